@@ -58,21 +58,26 @@ def limit_df(df, fs, start=None, stop=None, reset_indices=True):
 
     center_e, side_e = get_extrema_df(df)
 
-    df = df[df['sample_last_' + side_e].values >= start*fs]
+    # Convert the limits to samples, rounding to the nearest sample: fs * (n / fs) is not always n
+    #   in floating point, and truncating it or comparing against it can be off by one sample
+    start_samp = int(round(fs * start))
+
+    df = df[df['sample_last_' + side_e].values >= start_samp]
 
     if stop is not None:
-        df = df[df['sample_next_' + side_e].values <= stop*fs]
+        stop_samp = int(round(fs * stop))
+        df = df[df['sample_next_' + side_e].values <= stop_samp]
 
     # Shift sample indices to start at 0
     if reset_indices:
-        df['sample_last_' + side_e] = df['sample_last_' + side_e] - int(fs * start)
-        df['sample_next_' + side_e] = df['sample_next_' + side_e] - int(fs * start)
-        df['sample_' + center_e] = df['sample_' + center_e] - int(fs * start)
-        df['sample_zerox_rise'] = df['sample_zerox_rise'] - int(fs * start)
-        df['sample_zerox_decay'] = df['sample_zerox_decay'] - int(fs * start)
+        df['sample_last_' + side_e] = df['sample_last_' + side_e] - start_samp
+        df['sample_next_' + side_e] = df['sample_next_' + side_e] - start_samp
+        df['sample_' + center_e] = df['sample_' + center_e] - start_samp
+        df['sample_zerox_rise'] = df['sample_zerox_rise'] - start_samp
+        df['sample_zerox_decay'] = df['sample_zerox_decay'] - start_samp
         #   The last zero-crossing is a decay for peak-centered and a rise for trough-centered cycles
         last_zerox = 'sample_last_zerox_decay' if center_e == 'peak' else 'sample_last_zerox_rise'
-        df[last_zerox] = df[last_zerox] - int(fs * start)
+        df[last_zerox] = df[last_zerox] - start_samp
 
     return df
 
